@@ -98,20 +98,32 @@ pub fn stream_alloc(opt: &HashMap<String, String>) -> i32 {
     let mut samples: Vec<String> = vec![];
     let mut worst_cold = 0.0f64; let mut worst_warm_allocs = 0usize; let mut worst_warm_bytes = 0.0f64;
     let mut violations: Vec<String> = vec![];
-    let specials: [u64; 22] = [0, 1, 2, 3, 4, 5, 8, 9, 20, 21, 22, 64, 100, 128, 129, 130, 131, 200, 257, 500, 1000, 3000];
+    let specials: [u64; 26] = [0, 1, 2, 3, 4, 5, 8, 9, 20, 21, 22, 64, 100, 128, 129, 130, 131, 200, 257, 500, 513, 600, 1000, 1025, 2050, 3000];
     let big = if thorough { 3000 } else { 1000 };
     for i in 0..count {
         let wide = rng.below(2) == 0;
         let cold = i % 3 == 0;
         let len = if cold { 1 } else { rng.range(2, if thorough { 8 } else { 5 }) };
-        let mut calls = vec![];
+        let mut calls: Vec<AllocCall> = vec![];
         for _ in 0..len {
             let algo = rng.below(5) as u8;
             let method = loop { let m = rng.below(7) as u8; if accepts(algo, m) { break m; } };
             let cap = if algo == 4 { 150 } else { big };
-            let n = if rng.below(3) == 0 { specials[rng.below(22) as usize].min(cap) } else { rng.range(0, cap.min(400)) };
-            let fam = ["uniform", "lattice", "collinear", "sorted", "revsorted", "duppoints"][rng.below(6) as usize];
+            let n = if rng.below(3) == 0 { specials[rng.below(26) as usize].min(cap) } else { rng.range(0, cap.min(400)) };
+            let fam = ["uniform", "lattice", "collinear", "sorted", "revsorted", "duppoints", "rampdips", "rampdips", "tiechain"][rng.below(9) as usize];
             calls.push(AllocCall { algo, method, n, family: fam });
+        }
+        if !cold && i % 20 == 1 {
+            // dedicated warm histories on long, nearly sorted merge sequences (adaptive paths of
+            // the step ordering only show at hundreds of steps), through the entry points
+            // whose raw merge order is not sorted
+            calls.clear();
+            calls.push(AllocCall { algo: 1, method: 0, n: 1100, family: "uniform" });
+            for k in 0..6u64 {
+                let (algo, method) = [(1u8, 0u8), (2, 0), (0, 0), (2, 1), (0, 2), (2, 4)][((i / 20) as usize + k as usize) % 6];
+                let n = [600u64, 513, 1000, 777, 1100, 530][k as usize];
+                calls.push(AllocCall { algo, method, n, family: if k % 3 == 2 { "sorted" } else { "rampdips" } });
+            }
         }
         let outs = if wide { run_hist::<f64>(&mut rng, &calls, cold) } else { run_hist::<f32>(&mut rng, &calls, cold) };
         let mut exp: Vec<i128> = vec![];
